@@ -22,7 +22,7 @@ MANIFEST = {
 }
 LEVEL = "exploration"
 EXHAUSTIVE = True
-SHARDS = {"quick": 2, "thorough": 4}
+SHARDS = {"quick": 4, "thorough": 4}  # shard 3 runs with DEBUG logging switched on (vlib/sut.py)
 RULE = (
     "complete enumeration of {FULFILLED,UNFULFILLED,UNKNOWN,NEUTRAL}^2 and ^3 per operator (&,|,^) against tables "
     "and laws written from the statement (thorough: plus all mixed-operator triples, both groupings, soundness only); "
